@@ -117,7 +117,8 @@ fn store_seed(inputs: &Path, s: &Seed) {
         seed::Aux::Names(v) => json!({"names": v}),
         seed::Aux::Base(b) => json!({"base": b}),
     };
-    std::fs::write(&pj, serde_json::to_vec(&json!({"fields": fields, "seqs": seqs, "aux": aux})).unwrap())
+    let tokens: Vec<Value> = s.tokens.iter().map(|t| json!([t.name, t.start, t.end, t.markers, t.ordinary])).collect();
+    std::fs::write(&pj, serde_json::to_vec(&json!({"fields": fields, "seqs": seqs, "tokens": tokens, "aux": aux})).unwrap())
         .unwrap_or_else(|e| tool_error(&format!("write {pj:?}: {e}")));
 }
 
@@ -140,6 +141,15 @@ pub fn load_seed(inputs: &Path, fmt: &str, name: &str) -> Seed {
             name: q[0].as_str().unwrap_or("").to_string(),
             items: q[1].as_array().map(|a| a.iter().map(|it| (us(&it[0]), us(&it[1]))).collect()).unwrap_or_default(),
             parent_size_fields: q[2].as_array().map(|a| a.iter().map(us).collect()).unwrap_or_default(),
+        });
+    }
+    for t in m["tokens"].as_array().map(|a| a.as_slice()).unwrap_or(&[]) {
+        s.tokens.push(seed::TokenSite {
+            name: t[0].as_str().unwrap_or("").to_string(),
+            start: us(&t[1]),
+            end: us(&t[2]),
+            markers: t[3].as_array().map(|a| a.iter().map(|x| (us(&x[0]) as u8, us(&x[1]))).collect()).unwrap_or_default(),
+            ordinary: t[4].as_array().map(|a| a.iter().map(|x| us(x) as u8).collect()).unwrap_or_default(),
         });
     }
     s.aux = if let Some(n) = m["aux"].get("names") {
@@ -407,6 +417,7 @@ fn expand(seeds: &[Seed], plan: &[Value], thorough: bool) -> Vec<Input> {
         let origs: Vec<u64> = s.fields.iter().map(|f| mutate::read_field(&s.bytes, f)).collect();
         let mut seen_set: HashSet<(usize, u64)> = HashSet::new();
         let mut seen_tag: HashSet<(usize, String)> = HashSet::new();
+        let mut seen_tok: HashSet<(usize, usize, u8, usize, u8)> = HashSet::new();
         let mut seen_pair: HashSet<(usize, usize, u64, u64)> = HashSet::new();
         let mut cuts: BTreeMap<usize, (i64, String)> = BTreeMap::new(); // position -> (plan idx in `plan`, field)
         for (pi, p) in plan.iter().enumerate() {
@@ -546,6 +557,38 @@ fn expand(seeds: &[Seed], plan: &[Value], thorough: bool) -> Vec<Input> {
                         let second = if all_pairs { norm_field(&fb.name) } else { norm_field(&fb.name).rsplit_once('.').map(|x| x.1.to_string()).unwrap_or_default() };
                         let what = format!("{}+{}", norm_field(&fa.name), second);
                         out.push(mk(json!({"k":"set2","f":fi,"val":va.to_string(),"g":fj,"val2":vb.to_string()}), p, what, format!("{va:x}"), len));
+                    }
+                }
+                "token" => {
+                    // payload-level archetype: a run of `n` marker bytes followed by one ordinary token, written
+                    // over the token stream at its start, middle and end; n from the boundary repetition counts
+                    for (ti, t) in s.tokens.iter().enumerate() {
+                        for &(mb, max) in &t.markers {
+                            let n = match val {
+                                "0" => 0,
+                                "1" => 1,
+                                "max-1" => max.saturating_sub(1),
+                                "max" => max,
+                                "max+1" => max + 1,
+                                "2max" => 2 * max,
+                                c => tool_error(&format!("unknown repetition count {c}")),
+                            };
+                            let span = t.end.saturating_sub(t.start);
+                            if span < n + 1 {
+                                continue;
+                            }
+                            for (pname, at) in [("start", t.start), ("mid", t.start + (span - n - 1) / 2), ("end", t.end - n - 1)] {
+                                for &ob in &t.ordinary {
+                                    if !seen_tok.insert((ti, at, mb, n, ob)) {
+                                        continue;
+                                    }
+                                    let what = format!("{}@{}:{:02x}x{}+{:02x}", norm_field(&t.name), pname, mb, val, ob);
+                                    let mut i = mk(json!({"k":"tok","at":at,"marker":mb,"n":n,"then":ob}), p, what, format!("{n:x}"), len);
+                                    i.rem = max as u64;
+                                    out.push(i);
+                                }
+                            }
+                        }
                     }
                 }
                 "havoc" => {
